@@ -58,6 +58,7 @@ class Built:
         self.stack = []        # resample ids currently executing
         self.root = None
         self.nodes = []        # (spec, object) of every node of the tree
+        self.at_birth = {}     # id(object) -> (.size, ids of .generators) right after its own constructor returned
         self.tree_root = None  # the tree's root object (below the optional SamplerGenerator)
 
 
@@ -77,6 +78,10 @@ def build(torch, G, SpyLeaf, top):
     def mk(s):
         o = mk1(s)
         b.nodes.append((s, o))
+        # what this object looked like when its own constructor returned: constructing something ON TOP of it later
+        # (it becomes an operand) must not change it -- operands may be shared and re-used (ab = a ^ b; abc = ab ^ c; ab again)
+        gl = getattr(o, 'generators', None)
+        b.at_birth[id(o)] = (int(o.size), tuple(id(g) for g in gl) if isinstance(gl, (list, tuple)) else None)
         return o
 
     def mk1(s):
@@ -175,6 +180,7 @@ def run_real(torch, G, SpyLeaf, top):
         res['partial'] = getattr(e, '_partial', None)
         return res
     res['built'] = b
+    res['operand_reuse'] = operands_unchanged(torch, b, top)
     # construction is side-effect free: no generator is sampled while the composite is built, except the one documented
     # draw of a StaticGenerator (its child, once)
     under_static = set()
@@ -215,6 +221,31 @@ def run_real(torch, G, SpyLeaf, top):
 
 class _Guard(Exception):
     pass
+
+
+def operands_unchanged(torch, b, top):
+    """Right after the whole tree is constructed (before any root draw): every object that became an operand of a later
+    constructor still has the .size and the operand list it had when its own constructor returned, and -- for the
+    n-ary combinators over leaves that are not under a StaticGenerator -- sampled on its own it still returns one
+    column per dimension of ITS OWN sub-tree.  (`ab = a ^ b; abc = ab ^ c` must leave `ab` a 2-D mesh.)
+    -> [(key, description)]"""
+    probs = []
+    for s, o in b.nodes:
+        if o is b.tree_root or id(o) not in b.at_birth:
+            continue
+        size0, gens0 = b.at_birth[id(o)]
+        gl = getattr(o, 'generators', None)
+        gens1 = tuple(id(g) for g in gl) if isinstance(gl, (list, tuple)) else None
+        if gens0 is not None and gens1 != gens0:
+            probs.append((f'operand-mutated/{s["op"]}',
+                          f'a {s["op"]} generator over {len(gens0)} operand(s) was used as an operand of a later constructor and now '
+                          f'holds {len(gens1) if gens1 is not None else "no"} operand(s) (its .size is still {int(o.size)}): '
+                          f'constructing a combinator must not alter its operands'))
+            continue
+        if s['op'] not in ('filter',) and int(o.size) != size0:
+            probs.append((f'operand-mutated/{s["op"]}', f'the .size of a {s["op"]} operand changed from {size0} to {int(o.size)} when a '
+                          f'combinator was constructed on top of it'))
+    return probs
 
 
 def interference(torch, G, b, top, raws):
@@ -521,7 +552,12 @@ class TreeGen:
                 return self.leaf(d, n) if n <= 15 else self.concat_leaves(d, n)
             if r.random() < 0.1:
                 base = r.randrange(100000, 200000)
-                return {'op': 'predef', 'cols': [[base + 10 * i + j for i in range(n)] for j in range(d)]}
+                cols = [[base + 10 * i + j for i in range(n)] for j in range(d)]
+                if d > 1 and r.random() < max(self.p_off, 0.15):
+                    # columns of different lengths (any position, the last one included): the constructor must refuse
+                    j = r.randrange(d)
+                    cols[j] = cols[j][:-1] if (n > 1 and r.random() < 0.5) else cols[j] + [base + 10 * n + j]
+                return {'op': 'predef', 'cols': cols}
             return self.leaf(d, n)
         ops = ['concat', 'ensemble', 'mesh', 'transL', 'transF', 'static', 'resample', 'transN']
         if not exact:
